@@ -17,12 +17,18 @@ import (
 // C11 — row-group copy and re-encode fast paths are indistinguishable from
 // the row path.
 
+type xNest struct {
+	K    int32
+	Vals []int64
+}
+
 type XRow struct {
 	ID int64
 	S  string `parquet:",dict"`
 	O  *string
 	L  []int32
 	F  float64
+	N  []xNest // leaf N.Vals has two repeated ancestors
 }
 
 func xrowString(r XRow) string {
@@ -30,7 +36,7 @@ func xrowString(r XRow) string {
 	if r.O != nil {
 		o = *r.O
 	}
-	return fmt.Sprintf("%d|%s|%s|%v|%v", r.ID, r.S, o, r.L, r.F)
+	return fmt.Sprintf("%d|%s|%s|%v|%v|%v", r.ID, r.S, o, r.L, r.F, r.N)
 }
 
 func c11Rows(lo, hi int, longList bool) []XRow {
@@ -42,6 +48,24 @@ func c11Rows(lo, hi int, longList bool) []XRow {
 		}
 		for j := 0; j < i%4; j++ {
 			r.L = append(r.L, int32(i*10+j))
+		}
+		for j := 0; j < i%3; j++ {
+			n := xNest{K: int32(i + j)}
+			for k := 0; k < (i+j)%3; k++ {
+				n.Vals = append(n.Vals, int64(i*100+j*10+k))
+			}
+			r.N = append(r.N, n)
+		}
+		if longList && i == lo+2 {
+			// nested lists whose values straddle the 1024-value batches at every repetition level
+			r.N = nil
+			for j := 0; j < 3; j++ {
+				n := xNest{K: int32(j)}
+				for k := 0; k < 700; k++ {
+					n.Vals = append(n.Vals, int64(j*1000+k))
+				}
+				r.N = append(r.N, n)
+			}
 		}
 		if longList && i == lo+1 {
 			// a repeated row that straddles the 1024-value batches of the column re-encode path
@@ -297,10 +321,11 @@ func c11Run(x *engine.X) {
 				O     *string
 				L     []int32
 				Extra int32
+				N     []xNest
 			}
 			var ys []YRow
 			for _, r := range rows {
-				ys = append(ys, YRow{ID: r.ID, S: r.S, O: r.O, L: r.L, Extra: 7})
+				ys = append(ys, YRow{ID: r.ID, S: r.S, O: r.O, L: r.L, Extra: 7, N: r.N})
 			}
 			var buf bytes.Buffer
 			w := parquet.NewGenericWriter[YRow](&buf, srcOpts...)
